@@ -147,6 +147,13 @@ let dispatch (cmd : string) (args : sx list) : sx =
       let w_out = function OValue v -> L [A "value"; w_nat v] | ORaise v -> L [A "raise"; w_nat v] | OTimeout -> A "timeout" in
       let p = { p_dur = nat_ dur; p_res = res_ res; p_swallow = bool_ sw } in
       w_list w_out (allowed p (nat_ dur) (nat_ limit) (nat_ tol))
+  | "nested_summary", [fixed; dur; depth] ->
+      (* outcomes and leak flag over all schedules of `depth` events of the nested-limits LTS *)
+      let w_out = function OValue v -> L [A "value"; w_nat v] | ORaise v -> L [A "raise"; w_nat v] | OTimeout -> A "timeout" in
+      let p = { p_dur = nat_ dur; p_res = OValue (nat_ (A "0")); p_swallow = false } in
+      let states = nreach (bool_ fixed) p (nat_ depth) ninit in
+      let outs = List.sort_uniq compare (List.filter_map (fun s -> match nreturned s with Some o -> Some o | None -> None) states) in
+      L [w_list w_out outs; w_bool (List.exists nleaks states)]
   | "same_graph", [a; b] ->
       let sg_ x = match lst x with
         | [n; e; st; c] -> { g_nodes = list_ n_ n; g_edges = list_ n_ e; g_start = list_ n_ st; g_cons = list_ n_ c }
